@@ -259,7 +259,7 @@ def nontrivial(case):
 
 
 def case_strategy():
-    decls = dspec.decl_specs(options=dspec.CLASS_AND_NAMING_OPTIONS, inherit=True)
+    decls = dspec.decl_specs(options=dspec.CLASS_AND_NAMING_OPTIONS, inherit=True, extras=True)
     return decls.flatmap(lambda d: st.fixed_dictionaries({"decl": st.just(d), "input": dspec.inputs_for(d)}))
 
 
